@@ -650,6 +650,12 @@ fn check_trees<S: Open>(
     collector: &CheckResultsCollector,
 ) -> RusticResult<BTreeSet<PackId>> {
     let mut packs = BTreeSet::new();
+    // the packs which contain the root trees of the snapshots are used, too
+    for id in &snap_trees {
+        if let Some(entry) = index.get_tree(id) {
+            _ = packs.insert(entry.pack);
+        }
+    }
     let p = repo.progress_counter("checking trees...");
     let mut tree_streamer = TreeStreamerOnce::new(be, index, snap_trees, p)?;
     while let Some(item) = tree_streamer.next().transpose()? {
